@@ -214,6 +214,16 @@ fn produce_image_from_entry(entry: &Entry) -> Result<image::RgbaImage, String> {
         format!("cannot transcode from unknown color format {}", format)
     })?;
 
+    // The data size comes straight from the THTX header; it must agree with the dimensions before
+    // the pixels are decoded (ColorBytes::decode and ImageBuffer::from_raw assume it does).
+    let expected_len = cformat.bytes_per_pixel() * content_width as usize * content_height as usize;
+    if texture_data.data.len() != expected_len {
+        return Err(format!(
+            "image data has {} bytes, but a {}x{} image of color format {} needs {}",
+            texture_data.data.len(), content_width, content_height, format, expected_len,
+        ));
+    }
+
     let content_argb = cformat.transcode_to_argb_8888(&texture_data.data);
     let content = BgraImage::from_raw(content_width, content_height, &content_argb[..]).expect("size error?!");
 
